@@ -127,6 +127,8 @@ SPEC = {
         "tables_pinned", "checked_sites",
         "check_unsound_nested", "check_unsound_offsets", "check_unsound_array",
         "check_sound_refuted", "reported_true_refuted",
+        "get_matches_spec_partial", "get_matches_spec_flat", "check_decides_sizes_partial",
+        "reported_true_partial", "check_sound_partial", "vector_free_agree",
     ]],
     "harness": "c19",
     "nontrivial": nontrivial,
